@@ -235,7 +235,17 @@ impl Property for C20 {
             },
             _ => gen_under(t, &tree, &Base::Abs),
         };
-        let layers = if t.chance(100) { vec![] } else { gen_layers(t, &tree, 1).into_iter().take(2).collect() };
+        // layers are generated over the tree *with* the plain links standing as directories, so
+        // that a negation or a table can discard a followed link as a tree
+        let mut ltree = tree.clone();
+        for s in &sites {
+            if let Site::LinkTo(d, _) = s {
+                let name = ["zl", "0l", ".l", "ml"][(d.bytes().map(|b| b as usize).sum::<usize>() + d.len()) % 4];
+                let path = if d.is_empty() { name.to_string() } else { format!("{}/{}", d, name) };
+                ltree.nodes.push(Node { path, kind: Kind::Dir, unreadable: false });
+            }
+        }
+        let layers = if t.chance(100) { vec![] } else { gen_layers(t, &ltree, 1).into_iter().take(2).collect() };
         Case { tree, sites, under, layers, follow: t.chance(140), only: None }
     }
     fn shrink(&self, c: &Case) -> Vec<Case> {
